@@ -29,6 +29,7 @@ def run_engine(engine, casefile, timeout=1800):
 GENERATORS = {
     "dd": fmtgen.gen_dd,
     "elf": fmtgen.gen_elf,
+    "sadump": fmtgen.gen_sadump,
 }
 
 
@@ -58,7 +59,9 @@ def make_case(run, fmt, idx, big=False):
     z1 = fmtgen.page_requests(run.rng, info["pgsz"], info["maxpfn"], info["pfns"],
                               limit=24 if info["pgsz"] <= 8192 else 10)
     reqs += ["Z1"] + z1
-    line = "1 %s F=%s L=%s I=%s %s" % (dump, fmt, fmtgen.lay_str(lay), img, " ".join(reqs))
+    nf = info.get("nfiles", 1)
+    dumps = dump if nf == 1 else " ".join("%s.%d" % (dump, i) for i in range(nf))
+    line = "%d %s F=%s L=%s I=%s %s" % (nf, dumps, fmt, fmtgen.lay_str(lay), img, " ".join(reqs))
     info["image"] = img
     info["dump"] = dump
     return line, info
@@ -75,13 +78,15 @@ def first_diff(a, b):
 
 
 def req_tokens(line):
-    return [t for t in line.split()[2:] if not (len(t) > 1 and t[1] == "=")]
+    toks = line.split()
+    return [t for t in toks[1 + int(toks[0]):] if not (len(t) > 1 and t[1] == "=")]
 
 
 def strip_reqs(line, keep):
     """The case line with only the requests whose index is in `keep`."""
     toks = line.split()
-    head = [t for t in toks[:2]] + [t for t in toks[2:] if len(t) > 1 and t[1] == "="]
+    nf = 1 + int(toks[0])
+    head = toks[:nf] + [t for t in toks[nf:] if len(t) > 1 and t[1] == "="]
     reqs = req_tokens(line)
     return " ".join(head + [r for i, r in enumerate(reqs) if i in keep])
 
@@ -139,7 +144,8 @@ def check(run):
         print("spec:           " + res["spec"][0])
         compare(run, exe, [line], [{"key": "replay", "image": img, "pfns": []}], res)
         return
-    plan = [("dd", 120 if quick else 4000), ("elf", 100 if quick else 6000)]
+    plan = [("dd", 120 if quick else 4000), ("elf", 100 if quick else 6000),
+            ("sadump", 80 if quick else 3000)]
     only = os.environ.get("VERIF_C01_FORMATS")
     if only:
         plan = [p for p in plan if p[0] in only.split(",")]
